@@ -110,6 +110,13 @@ pub fn run(run: &Run) {
         }
         true
     });
+    composing_pairs(run, "all_composing_pairs", &|s, l| match check(run, s, l) {
+        Ok(()) => true,
+        Err(_) => {
+            shrink_report(run, Prof::Nick, Op::Enforce, s);
+            false
+        }
+    });
     collisions(run, "fingerprint_collisions", &|s, l| match check(run, s, l) {
         Ok(()) => true,
         Err(v) => {
